@@ -32,7 +32,7 @@ def rand_summary(rng, fam):
         # small magnitudes: the library's default update policy is `summary += update` on int64_t (signed overflow is the user's problem)
         return ["%x" % (rng.choice([0, 1, 2, -1, -2, rng.randrange(-2**40, 2**40)]) % 2**64)]
     if fam in ("tstr", "tcst"):
-        n = rng.choice([0, 0, 1, 2, 3, 5, 8, 13]) if fam == "tstr" else rng.choice([0, 1, 2, 3])
+        n = rng.choice([0, 0, 1, 2, 3, 5, 8, 13, 17, 24, 40]) if fam == "tstr" else rng.choice([0, 1, 2, 3])      # (> 15 bytes: heap-owning summaries, visible in the allocation balance)
         return ["".join("%02x" % rng.randrange(256) for _ in range(n)) or "-"]
     if fam == "aod":
         return None  # filled by caller (needs num_values)
